@@ -40,7 +40,7 @@ CHECKS = {
 CHECKS.update({
  "C09": dict(engine="E2-bubble + E3-sched", cat="model_checking", tech=E2 + "; " + E3,
   text="E2: full product (thorough; covering subset in quick) of roles x sends awaiting a reply {0,1,2} x a send blocked mid-write x queued fire-and-forget sends {0,1,3} x generation-ending event {peer close, reset, write timeout, Close+Open, linktest failure, T8 inside a frame, Separate.req} x refused re-dials x late reply for an old transaction x new sends, on a real hsmsss connection; every payload carries a token naming the generation that accepted it; oracle: generation 2's socket never carries a generation-1 token, every generation-1 waiter returns connection-closed / its own timeout promptly and never a reply, late replies never complete generation-2 sends. E3: every schedule with <= B departures of {sender pinned to generation 1, peer drop, reconnecting+selecting peer}.",
-  note="HSMS-SS only (SECS-I generations are not covered). Bounded by the stated product and by the departure bound; exact timer ties outside E3's scenarios are not explored. Built on the instrumented tree so that a writer stalled mid-write (holding the write lock) does not wedge the bubble."),
+  note="HSMS-SS by the full product; SECS-I by part checks/c09t (7 unfinished-message states of generation 1 x close/reset x roles on a real secs1 connection with an E4 peer: calls return promptly with a definite error, no byte of a generation-1 message on generation 2, a fresh send goes through). Bounded by the stated product and by the departure bound; exact timer ties outside E3's scenarios are not explored. Built on the instrumented tree so that a writer stalled mid-write (holding the write lock) does not wedge the bubble."),
  "C10": dict(engine="E2-bubble + E3-sched", cat="model_checking", tech=E2 + "; " + E3,
   text="E2 tree search: every history of length <= D (quick 3, thorough 4) over {Open(background), Open(wait), Close, SendDataMessage, UpdateConfigOptions, dial answer accept/refuse/black-hole, peer connect/select/reject/close/stall, advance 100ms/3s}, each API call on its own goroutine, active and passive; after every step: no panic, each call within its documented virtual-time bound, Open-on-open = ErrAlreadyOpen without side effects; final phase per history: Close within the close timeout, idempotent re-Close, no dial/listen for 12 s, every socket and listener closed, no library goroutine, re-Open + select + round trip + Close works. The same tree search runs on a real SECS-I (secs1) connection, active+host and passive+equipment, with an independent E4 peer for the final round trip. E3: every schedule with <= B departures of {Close, Close, peer drop}, {Open, Close, Send}, {peer connect, Close}: no deadlock, documented return values, same leak checks.",
   note="Black-holed dials are bounded by the configured connect timeout (an unbounded OS dial is outside the model); a SECS-I peer stall keeps a 64 KiB receive window (a zero-byte TCP window blocking a 1-byte write for ever is outside the model: SECS-I disables the core write timeout). The E3 overlaps are HSMS-SS only. State() after Close is C05's clause. Depth / departure bounds as stated."),
